@@ -39,4 +39,13 @@ CHECKS = {
              'while running; DataEdit chains are compared with plain dict operations.',
         note='Filters are deterministic callables; the only trusted parts are the probe Recorder block and '
              'the virtual event loop.'),
+    'C17': dict(
+        level='exploration', design_ref='DESIGN.md 4/C17',
+        technique=PBT + '; validator-set model (allowed AND check AND schema-does-not-raise), put histories incl. persistent restore and InputExp expiration on the virtual clock',
+        text='Generated validator definitions over a small domain (one unhashable member), initdef/expired/'
+             'restored values inside and outside the accepted set and put sequences; after every put the '
+             'return value, output, internal state and stored persistent value are compared with the model; '
+             'invalid initdef/expired must be refused by the constructor.',
+        note='The expired output may be the raw argument or schema(argument) (not fixed by the property); '
+             'validation of a restored InputExp value is not asserted.'),
 }
